@@ -30,6 +30,31 @@ type withEmbedded struct {
 	Own  int
 }
 
+type EmbPub struct {
+	Base int
+	Tag  string
+}
+
+type withEmbeddedPtr struct {
+	*EmbPub
+	Name string
+	Own  int
+}
+
+type withEmbeddedUnexpPtr struct {
+	*embBase
+	Name string
+	Own  int
+}
+
+type withEmbeddedAndTag struct {
+	embBase
+	Name  string
+	Port  int `bcl:"listen"`
+	Limit int
+	Mode  string `bcl:"m"`
+}
+
 type withUnexported struct {
 	Name   string
 	hidden int
@@ -82,7 +107,7 @@ func c15Value(r *rand.Rand, depth int) any {
 	}
 }
 
-var c15Keys = []string{"x", "a", "ab", "a_b", "A_B", "count", "max_latency", "MaxLatency", "sub", "sub.n1", "sub.n2", "inner", "p", "s", "i", "j", "m", "l", "f", "c", "base", "tag", "own", "hidden", "shown", "name", "Name", "q"}
+var c15Keys = []string{"listen", "limit", "port", "mode", "x", "a", "ab", "a_b", "A_B", "count", "max_latency", "MaxLatency", "sub", "sub.n1", "sub.n2", "inner", "p", "s", "i", "j", "m", "l", "f", "c", "base", "tag", "own", "hidden", "shown", "name", "Name", "q"}
 
 func c15Block(r *rand.Rand, depth int) bcl.Block {
 	b := bcl.Block{Type: []string{"blk", "t", "with_pointers", "withembedded", "with_unexported", "a", "sub", "inner"}[r.Intn(8)], Fields: map[string]any{}}
@@ -196,8 +221,9 @@ func c15Targets(r *rand.Rand, bd bcl.Binding) any {
 		return mk(c15TargetType(r, first, true), isSlice)
 	case k == 12:
 		return mk(c15TargetType(r, first, false), !isSlice) // wrong kind for the binding
-	case k == 13:
-		zt := []reflect.Type{reflect.TypeOf(withEmbedded{}), reflect.TypeOf(withUnexported{}), reflect.TypeOf(withPointers{}), reflect.TypeOf(A{}), reflect.TypeOf(Tunnel{})}
+	case k == 13 || k == 15:
+		zt := []reflect.Type{reflect.TypeOf(withEmbedded{}), reflect.TypeOf(withUnexported{}), reflect.TypeOf(withPointers{}), reflect.TypeOf(A{}), reflect.TypeOf(Tunnel{}),
+			reflect.TypeOf(withEmbeddedPtr{}), reflect.TypeOf(withEmbeddedUnexpPtr{}), reflect.TypeOf(withEmbeddedAndTag{}), reflect.TypeOf(withEmbeddedAndTag{})}
 		return mk(zt[r.Intn(len(zt))], isSlice)
 	case k == 14:
 		// hostile non-struct things
@@ -365,6 +391,25 @@ func c15Case(c *core.Ctx, i int64, r *rand.Rand) {
 		bd = bcl.StructBinding{Value: c15Block(r, 0)}
 	}
 	target := c15Targets(r, bd)
+	// a named struct type as target: the blocks take its name as their type
+	if tt := reflect.TypeOf(target); tt != nil && tt.Kind() == reflect.Pointer {
+		et := tt.Elem()
+		if et.Kind() == reflect.Slice {
+			et = et.Elem()
+		}
+		if et.Kind() == reflect.Struct && et.Name() != "" && r.Intn(4) > 0 {
+			name := strings.ToLower(et.Name())
+			switch b := bd.(type) {
+			case bcl.StructBinding:
+				b.Value.Type = name
+				bd = b
+			case bcl.SliceBinding:
+				for k := range b.Value {
+					b.Value[k].Type = name
+				}
+			}
+		}
+	}
 	desc := fmt.Sprintf("binding=%s target=%T", core.Trunc(canonBinding(bd), 600), target)
 	c.Note("%s", core.Trunc(desc, 300))
 	c.NoteInput("pair", []byte(desc))
@@ -498,7 +543,7 @@ type c16Target struct {
 // c16Case builds a case selected for order sensitivity and returns a digest
 // of everything observable from one run.
 func c16Source(r *rand.Rand) (src []byte, kind string) {
-	switch r.Intn(6) {
+	switch r.Intn(7) {
 	case 0:
 		// two keys folding to one struct field, two faulty fields
 		vals := r.Perm(5)
@@ -520,6 +565,22 @@ func c16Source(r *rand.Rand) (src []byte, kind string) {
 			b.WriteString([]string{"print )\n", "var = 1\n", "def { }\n", "print 1 +\n", "var x x\n", "print 1\n", "eval (\n"}[r.Intn(7)])
 		}
 		return []byte(b.String()), "several_diagnostics"
+	}
+	if r.Intn(8) == 0 {
+		// many blocks bound to a slice, each with a fault of its own: which error is returned?
+		var b strings.Builder
+		for k, n := 0, 40+r.Intn(60); k < n; k++ {
+			switch r.Intn(3) {
+			case 0:
+				fmt.Fprintf(&b, "def c16_target \"n%d\" { unknown_%d = %d }\n", k, k, k)
+			case 1:
+				fmt.Fprintf(&b, "def c16_target \"n%d\" { ab = \"s%d\" }\n", k, k)
+			default:
+				fmt.Fprintf(&b, "def c16_target \"n%d\" { s = %d }\n", k, k)
+			}
+		}
+		b.WriteString("bind c16_target:all -> slice\n")
+		return []byte(b.String()), "many_faulty_blocks_to_slice"
 	}
 	cfg := randProfile(r)
 	g := lang.NewGen(r, cfg)
@@ -589,6 +650,8 @@ func c16Digest(src []byte) string {
 	}
 	r := Interpret(src)
 	fmt.Fprintf(&b, "interp=%s|%s|%v|%s|%s|%s|", canonBlocks(r.Blocks), canonBinding(r.Binding), r.Err, r.Out, r.Log, r.Panic)
+	rs := Interpret(src, bcl.OptStats(true), bcl.OptDisasm(true))
+	fmt.Fprintf(&b, "interp+stats+disasm=%v|%x|%s|", rs.Err, core.Hash(rs.Out), rs.Panic)
 	var t c16Target
 	var uerr error
 	pan, _ := protect(func() { uerr = bcl.Unmarshal(src, &t, bcl.OptLogger(&lg), bcl.OptOutput(&out)) })
@@ -615,11 +678,15 @@ func c16Digest(src []byte) string {
 }
 
 // C16Digests prints one digest hash per case (used by the fresh-process runs).
-func C16Digests(seed, from, to int64) {
+func C16Digests(seed int64, list string) {
 	if os.Getenv("VERIF_C16_ORDER") == "1" {
 		c16Order = 1
 	}
-	for i := from; i < to; i++ {
+	for _, f := range strings.Split(list, ",") {
+		var i int64
+		if _, err := fmt.Sscan(f, &i); err != nil {
+			continue
+		}
 		r := rand.New(rand.NewSource(core.Mix(seed, i)))
 		src, _ := c16Source(r)
 		if !vetMemory(src) {
@@ -652,9 +719,12 @@ func init() {
 				if len(batch) == 0 {
 					return
 				}
-				from, to := batch[0].i, batch[len(batch)-1].i+1
+				var idx []string
+				for _, pd := range batch {
+					idx = append(idx, fmt.Sprint(pd.i))
+				}
 				for _, procs := range []string{"1", "2", "16"} {
-					cmd := exec.Command(exe, "c16digest", fmt.Sprint(c.Seed), fmt.Sprint(from), fmt.Sprint(to))
+					cmd := exec.Command(exe, "c16digest", fmt.Sprint(c.Seed), strings.Join(idx, ","))
 					cmd.Env = append(os.Environ(), "GOMAXPROCS="+procs)
 					if procs == "2" {
 						cmd.Env = append(cmd.Env, "VERIF_C16_ORDER=1") // independent calls in the other order
